@@ -692,6 +692,26 @@ class ArchiveFault:
         self.saved = None
 
 
+MOVED = 'moved'       # sub-directory used as --warc-move target
+
+
+def read_dir(directory):
+    """{name: bytes} of the plain files of the working directory; files of the move directory as 'moved/<name>'."""
+    out = {}
+    for n in sorted(os.listdir(directory)):
+        path = os.path.join(directory, n)
+        if os.path.isdir(path):
+            if n == MOVED:
+                for m in sorted(os.listdir(path)):
+                    if os.path.isfile(os.path.join(path, m)):
+                        with open(os.path.join(path, m), 'rb') as f:
+                            out[MOVED + '/' + m] = f.read()
+            continue
+        with open(path, 'rb') as f:
+            out[n] = f.read()
+    return out
+
+
 _KEEPALIVE = []      # objects of an abandoned life: nothing may be finalised (flushed) before os._exit
 
 
@@ -699,10 +719,7 @@ def snapshot_check(directory, cfg, before):
     """The on-disk state while the recorder is still open (= what a kill -9 now would leave, = what a reader of the
     files sees mid-crawl): every archive file is a sequence of complete records, and every response record that is
     in an archive file has exactly one complete CDX line.  -> (c05 fails, c07 fails)"""
-    after = {}
-    for n in sorted(os.listdir(directory)):
-        with open(os.path.join(directory, n), 'rb') as f:
-            after[n] = f.read()
+    after = read_dir(directory)
     pseudo = {'cfg': cfg, 'before': before, 'after': after}
     by_file, problems = parse_life(pseudo)
     c05 = [(k, w, d + ' [seen on disk while the recorder was open]') for k, w, d in problems]
@@ -763,10 +780,7 @@ def run_real_life_forked(directory, run, seed):
             os.remove(side)
         except OSError:
             pass
-    after = {}
-    for n in sorted(os.listdir(directory)):
-        with open(os.path.join(directory, n), 'rb') as f:
-            after[n] = f.read()
+    after = read_dir(directory)
     obs['after'] = after
     obs['abandoned'] = not obs.get('completed', False)
     # a kill inside an append leaves the journal of that append: offset = length of the complete part of the file
@@ -786,10 +800,7 @@ def run_real_life(directory, run, seed, die=False, side=None):
     from wpull.protocol.http.request import Request, Response
     from wpull.protocol.ftp.request import Request as FTPRequest, Response as FTPResponse
     cfg = run['cfg']
-    before = {}
-    for n in sorted(os.listdir(directory)):
-        with open(os.path.join(directory, n), 'rb') as f:
-            before[n] = f.read()
+    before = read_dir(directory)
     created = []
     counter = [0]
     real_uuid4 = uuid_mod.uuid4
@@ -799,7 +810,7 @@ def run_real_life(directory, run, seed, die=False, side=None):
         u = uuid_mod.UUID(int=(int(hashlib.sha1(('%s/%d' % (seed, counter[0])).encode()).hexdigest(), 16) >> 32), version=4)
         created.append(str(u))
         return u
-    table = UrlTableStub() if cfg['revisit'] else None
+    table = run.get('_url_table') or (UrlTableStub() if cfg['revisit'] else None)
     root = logging.getLogger()
     old_level = root.level
     old_handlers = list(root.handlers)
@@ -833,7 +844,10 @@ def run_real_life(directory, run, seed, die=False, side=None):
         params = WARCRecorderParams(
             compress=cfg['compress'], extra_fields=[tuple(x) for x in cfg['extra']] or None, temp_dir=directory,
             log=cfg['log'], appending=cfg['appending'], digests=cfg['digests'], cdx=cfg['cdx'],
-            max_size=cfg['max_size'], url_table=table, software_string=cfg['software'])
+            max_size=cfg['max_size'], url_table=table, software_string=cfg['software'],
+            move_to=os.path.join(directory, MOVED) if cfg.get('move_to') else None)
+        if cfg.get('move_to'):
+            os.makedirs(os.path.join(directory, MOVED), exist_ok=True)
         software = cfg['software'] or WARCRecorder.DEFAULT_SOFTWARE_STRING
         try:
             rec = WARCRecorder(os.path.join(directory, PREFIX), params=params)
@@ -986,10 +1000,7 @@ def run_real_life(directory, run, seed, die=False, side=None):
             if h not in old_handlers:
                 root.removeHandler(h)
         root.setLevel(old_level)
-    after = {}
-    for n in sorted(os.listdir(directory)):
-        with open(os.path.join(directory, n), 'rb') as f:
-            after[n] = f.read()
+    after = read_dir(directory)
     return {'cfg': cfg, 'before': before, 'after': after, 'created': created, 'meta': meta,
             'model_ops': model_ops, 'software': software, 'raised': raised,
             'snap_c05': snap_c05, 'snap_c07': snap_c07, 'completed': raised is None,
